@@ -8,6 +8,7 @@ only when a `theorem` of exactly that proposition appears below it.
 -/
 import ZV.Model.Coverage
 import ZV.Model.CoverageSem
+import ZV.Proofs.Coverage
 
 namespace ZV.Props.C04
 open ZV.Coverage
@@ -71,5 +72,64 @@ arm twice. -/
 theorem comatch_ok_iff (declared arms : List String) :
     (validateComatch declared arms).missing = [] ↔ ∀ d ∈ declared, d ∈ arms := by
   simp [validateComatch, List.filter_eq_nil_iff]
+
+/-! ### The semantic theorems (each is exactly its `Statement`) -/
+
+theorem uncovered_sound : Statement.uncovered_sound := by
+  intro Δ m τs hwf hrows he vs hvs
+  exact uncovered_sound_aux Δ hwf m τs.length τs rfl hrows he vs hvs
+
+theorem accepted_match_covers : Statement.accepted_match_covers := by
+  intro Δ arms τ e hwf he hp hv
+  exact top_sound Δ hwf arms τ e he hp (validateMatch_eq_none.1 hv)
+
+/-- Without the inhabitation hypothesis witness soundness fails: the empty match on
+`Void * Unit` is reported as missing `_`, but the type has no value. -/
+theorem witness_sound_needs_inhabitation : ¬ Statement.witness_sound_without_inhabitation := by
+  intro h
+  have hwf : WfSig [[]] := by
+    intro d
+    cases d <;> simp [TSig.ctorsOf]
+  have hval : validateMatch (TSig.erase [[]]) [] none
+      = some { missing := [.wild], truncated := false } := by
+    unfold validateMatch uncoveredTop
+    rw [uncovered]
+    simp [maxReported]
+  obtain ⟨v, hv, _, _⟩ := h [[]] [] (.prod (.data 0) .unit) none _ hwf (Or.inl rfl)
+    (by simp) hval .wild (by simp)
+  cases hv with
+  | pair hx _ =>
+    cases hx with
+    | ctor hmem _ => simp [TSig.ctorsOf] at hmem
+
+theorem witness_sound : Statement.witness_sound := by
+  intro Δ arms τ e r hwf hinh he hp hv w hw
+  obtain ⟨row, hrow, rfl⟩ := (validateMatch_missing hv).2 w hw
+  exact top_witness Δ hwf hinh arms τ e he hp row hrow
+
+theorem covering_match_accepted : Statement.covering_match_accepted := by
+  intro Δ arms τ e hwf hinh he hp hcov
+  cases hv : validateMatch Δ.erase arms e with
+  | none => rfl
+  | some r =>
+    exfalso
+    have hne := (validateMatch_missing hv).1
+    cases hm : r.missing with
+    | nil => exact hne hm
+    | cons w ws =>
+      obtain ⟨v, hty, _, hno⟩ := witness_sound Δ arms τ e r hwf hinh he hp hv w (by simp [hm])
+      obtain ⟨p, hpm, hmatch⟩ := hcov v hty
+      rw [hno p hpm] at hmatch
+      cases hmatch
+
+/-- Every row reported by the matrix algorithm has as many entries as the matrix has columns. -/
+theorem uncovered_length (Δ : Sig) (m : Matrix) (columns : Nat) :
+    ∀ row ∈ uncovered Δ m columns, row.length = columns :=
+  ZV.Coverage.uncovered_length Δ m columns
+
+/-- `validate_comatch` reports no duplicate exactly when no arm name occurs twice. -/
+theorem comatch_no_duplicates_iff (declared arms : List String) :
+    (validateComatch declared arms).duplicates = [] ↔ arms.Nodup := by
+  simp [validateComatch, dups_nil_iff]
 
 end ZV.Props.C04
